@@ -47,6 +47,35 @@ def gen_type_flip_case(rng):
     return s.text(), {"errors_expected": True}
 
 
+def gen_snapshot_name_taken_case(rng):
+    """the name of a project's next snapshot is taken - by an earlier snapshot, or by something that is no directory at
+    all (a stray file, a link to an archive that is not mounted): the holder stays what it is, the snapshot goes to the
+    next free name"""
+    s = wc.Script()
+    W, R = wc.WATCH, wc.R
+    wc.setup_world(s, wc.base_cfg(deb=0))
+    s.start()
+    s.exec(3, wc.X + "/vim")
+    root, name = rng.choice([(W + "/proj", "proj"), (W + "/pp/p1", "p1")])
+    k = rng.randint(0, 2)
+    s.put(root + "/a.c", "int a;")
+    s.write(3, root + "/a.c")
+    s.tick(k)
+    for j in range(rng.randint(1, 3)):
+        holder = "%s/k/projects/%s/v%d%s" % (R, name, wc.CLOCK0 + k, "" if j == 0 else "-%d" % j)
+        kind = rng.choice(["file", "dir", "link"])
+        if kind == "file":
+            s.put(holder, "not a snapshot")
+        elif kind == "dir":
+            s.mkdirp(holder)
+        else:
+            s.add("symlink %s %s %d" % (wc.hexs(holder), wc.hexs("/kvnx/archive/gone"), wc.CLOCK0 - 9))
+    s.dump()
+    s.timeout()
+    s.dump()
+    return s.text(), {}
+
+
 def main(rep):
     rng = random.Random(rep.seed)
     n = 200 if rep.tier == "quick" else 4000
@@ -54,6 +83,9 @@ def main(rep):
     for i in range(max(8, n // 20)):
         t, m = gen_type_flip_case(rng)
         cases.append(("f%d" % i, t, m))
+    for i in range(max(8, n // 20)):
+        t, m = gen_snapshot_name_taken_case(rng)
+        cases.append(("sn%d" % i, t, m))
     for i in range(n):
         t, m = wc.gen_collision_case(rng)
         cases.append(("c%d" % i, t, m))
@@ -65,7 +97,7 @@ def main(rep):
     wk.standard_main(rep, cases=cases, monitors=MON, crash=True, fault=True, only=only,
                      crash_monitors=["store_immutable"], fault_monitors=["store_immutable", "fault_reported"],
                      rule=("up to 12 versions of one file inside one version timestamp, with 0-4 of the wanted names (base, -1 .. -5) already taken by "
-                           "pre-existing files or a directory, restarts in between; a versioned file replaced by a directory holding an entry named like that version, which is then saved (the stored version is where a directory would be needed); plus random mixed histories; every crash point and single fault of the passes that meet a taken name (thorough: "
+                           "pre-existing files or a directory, restarts in between; snapshot names taken by directories, stray files and dangling links; a versioned file replaced by a directory holding an entry named like that version, which is then saved (the stored version is where a directory would be needed); plus random mixed histories; every crash point and single fault of the passes that meet a taken name (thorough: "
                            "of all scenario families); monitors: no store file changes or disappears between consecutive dumps, every new version took the first free name"))
 
 
